@@ -100,6 +100,12 @@ CallBulkAdd(i, ls, cs) ==
   IN [o |-> [op |-> "bulk_add", i |-> i, xs |-> xs, cs |-> cs, share_ok |-> FALSE], w2 |-> [w EXCEPT ![i] = r.inst], res |-> r.res,
       used |-> Len(ls)]
 
+CallBulkRemove(i, ks) ==
+  LET a == w[i]
+      n == CHOOSE n \in 0..Len(ks) : ValidPrefix(a, ks, n) /\ (n = Len(ks) \/ ~ValidPrefix(a, ks, n + 1))
+  IN [o |-> [op |-> "bulk_remove", i |-> i, ks |-> ks, share_ok |-> FALSE], w2 |-> [w EXCEPT ![i] = RemSeq(a, ks, n)],
+      res |-> IF n = Len(ks) THEN OkRes(<<>>) ELSE ErrRes("ValueError"), used |-> 0]
+
 LookupVal(a, what, key) ==
   LET n == Len(a.items) IN
   CASE what = "len"  -> OkRes(<<n>>)
@@ -130,6 +136,7 @@ CallEncode(i) ==
 \* ---------------------------------------------------------------- which calls a kind offers
 LabelSeqs(n) == UNION {[1..k -> Labels] : k \in 0..n}
 Pats == UNION {[1..k -> {<<l, g>> : l \in Labels, g \in BOOLEAN}] : k \in 0..2}
+RemKs    == {<<0>>, <<0, 0>>, <<1, 0>>, <<0, 1>>, <<2, 0>>, <<0, 3>>}      \* index lists for bulk removal
 CtorTakesItems == Kind \in {"FPCal", "Optical"}
 HasRemoveLabel == Kind = "EMG"
 HasRemoveIdx   == Kind = "FPCal"
@@ -152,6 +159,7 @@ Calls ==
                                                   cs \in (IF Kind = "FPCal" THEN {<<0, 2>>, <<2, 2>>, <<5, 0>>} ELSE {<<>>})} ELSE {})
   \cup (IF HasBulk THEN {CallBulkAdd(i, ls, cs) : i \in {k \in 1..NI : w[k].ex}, ls \in LabelSeqs(2) \ {<<>>},
                                                   cs \in {<<>>, <<0, 2>>, <<5, 5>>}} ELSE {})
+  \cup (IF HasBulk THEN {CallBulkRemove(i, ks) : i \in {k \in 1..NI : w[k].ex}, ks \in RemKs} ELSE {})
   \cup (IF HasLookup THEN {CallLookup(i, wh, 0) : i \in {k \in 1..NI : w[k].ex}, wh \in {"len", "iter", "badkey"}}
                           \cup {CallLookup(i, "index", k) : i \in {k \in 1..NI : w[k].ex}, k \in 0..(MaxItems + 1)}
                           \cup {CallLookup(i, wh, l) : i \in {k \in 1..NI : w[k].ex}, wh \in {"label", "contains"}, l \in Labels \cup {9}} ELSE {})
@@ -190,6 +198,7 @@ EditItem(i, pos)      == Ex(i) /\ HasContent /\ pos <= Len(w[i].items) /\ Act(Ca
 Poke(i)               == Ex(i) /\ Act(CallPoke(i))
 AssignFrom(i, j)      == Ex(i) /\ Ex(j) /\ i # j /\ Kind \in {"Data3D", "Force"} /\ Act(CallAssignFrom(i, j))
 
+BulkRemove(i, ks)     == Ex(i) /\ HasBulk /\ Act(CallBulkRemove(i, ks))
 AssignCs == {<<>>, <<0, 2>>, <<2, 2>>, <<5, 0>>}
 BulkCs   == {<<>>, <<0, 2>>, <<5, 5>>}
 Next ==
@@ -203,6 +212,7 @@ Next ==
         \/ \E pos \in 1..MaxItems : RemoveItem(i, pos)
         \/ \E p \in Pats, cs \in AssignCs : Assign(i, p, cs)
         \/ \E ls \in LabelSeqs(2) \ {<<>>}, cs \in BulkCs : BulkAdd(i, ls, cs)
+        \/ \E ks \in RemKs : BulkRemove(i, ks)
         \/ \E wh \in {"len", "iter", "badkey"} : Lookup(i, wh, 0)
         \/ \E k \in 0..(MaxItems + 1) : Lookup(i, "index", k)
         \/ \E wh \in {"label", "contains"}, l \in Labels \cup {9} : Lookup(i, wh, l)
